@@ -348,25 +348,132 @@ def HasType (vd : V) (out : Y) : Bool :=
   | .boolInt, .int i => i == 0 || i == 1
   | _, _ => false
 
+/-! ## item types: single / list / set / dict (`validate_config_item`) -/
+
+/-- a config item as it comes out of YAML: scalar, list of scalars, or dict of scalars -/
+inductive Item
+  | scalar (y : Y) | list (ys : List Y) | dict (kvs : List (Y × Y))
+  deriving DecidableEq, Repr
+
+/-- result of validating an item -/
+inductive RI
+  | ok (v : Item) | reject | raise | unmodelled
+  deriving DecidableEq, Repr
+
+inductive IType | single | list | set | dict
+  deriving DecidableEq, Repr
+
+def splitOnComma : List Char → List (List Char)
+  | [] => [[]]
+  | c :: r => if c == ',' then [] :: splitOnComma r else
+      match splitOnComma r with
+      | [] => [[c]]
+      | h :: t => (c :: h) :: t
+
+/-- `Util.string_to_list` / `string_to_event_list` (they differ only for strings containing a brace, which the model
+does not decide): `none` = AssertionError, `some none` = not decided -/
+def toList (brace : Bool) : Item → Option (Option (List Y))
+  | .list ys => some (some ys)
+  | .dict _ => Option.none
+  | .scalar .none => some (some [])
+  | .scalar (.str s) =>
+    let l := s.toList
+    if l.isEmpty then some (some [])
+    else if l.any (fun c => c.toNat ≥ 128) then some Option.none
+    else if brace && l.any (· == '{') then some Option.none
+    else some (some ((splitOnComma l).map (fun x =>
+      if x == "none".toList then Y.none else Y.str (String.ofList (strip x)))))
+  | .scalar (.nan) => some (some [.nan])
+  | .scalar (.inf b) => some (some [.inf b])
+  | .scalar y => some (some [y])
+
+/-- validate the elements one by one; an empty / blank string element is an error -/
+def validateElems (chk : Bool) (vd : V) : List Y → RI
+  | [] => .ok (.list [])
+  | y :: rest =>
+    if chk && (y == .str "" || y == .str " ") then .reject else      -- only the list path rejects blank elements
+    match validateItem vd y with
+    | .ok v =>
+      (match validateElems chk vd rest with
+       | .ok (.list vs) => .ok (.list (v :: vs))
+       | .ok _ => .unmodelled
+       | o => o)
+    | .reject => .reject
+    | .raise => .raise
+    | .unmodelled => .unmodelled
+
+def validatePairs (kvd vvd : V) : List (Y × Y) → RI
+  | [] => .ok (.dict [])
+  | (k, v) :: rest =>
+    match validateItem kvd k, validateItem vvd v with
+    | .ok k', .ok v' =>
+      (match validatePairs kvd vvd rest with
+       | .ok (.dict kvs) => if kvs.any (fun p => p.1 == k') then .unmodelled else .ok (.dict ((k', v') :: kvs))
+       | .ok _ => .unmodelled
+       | o => o)
+    | .unmodelled, _ => .unmodelled
+    | _, .unmodelled => .unmodelled
+    | .raise, _ => .raise
+    | _, .raise => .raise
+    | _, _ => .reject
+
+/-- `validate_config_item` for a present item (`brace` = the list splitter that honours braces is used) -/
+def validateConfigItem (it : IType) (vd : V) (vvd : Option V) (brace : Bool) (item : Item) : RI :=
+  match it with
+  | .single =>
+    (match item with
+     | .scalar y => (match validateItem vd y with
+        | .ok v => .ok (.scalar v) | .reject => .reject | .raise => .raise | .unmodelled => .unmodelled)
+     | _ => .unmodelled)
+  | .list =>
+    (match toList brace item with
+     | some (some ys) => validateElems true vd ys
+     | some Option.none => .unmodelled
+     | Option.none => .reject)
+  | .set =>
+    (match toList false item with
+     | some (some ys) => (match validateElems false vd ys.eraseDups with
+        | .ok (.list vs) => .ok (.list vs.eraseDups) | o => o)
+     | some Option.none => .unmodelled
+     | Option.none => .reject)
+  | .dict =>
+    (match vvd with
+     | Option.none => .reject
+     | some vv =>
+       match item with
+       | .scalar .none => .ok (.dict [])
+       | .scalar (.str s) => if s == "None" then .ok (.dict []) else .reject
+       | .dict kvs => validatePairs vd vv kvs
+       | _ => .reject)
+
 /-! ## section validation: keys -/
 
 structure KeySpec where
   key : String
+  it : IType := .single
   vd : V
+  vvd : Option V := Option.none
+  brace : Bool := true
   default : Option String      -- none = required; "None"-like defaults are strings handled by preNone
   deriving Repr
 
-/-- `_validate_config` restricted to scalar keys: unknown keys rejected (unless `__allow_others__`), every spec key
+def riOfR : R → RI
+  | .ok v => .ok (.scalar v) | .reject => .reject | .raise => .raise | .unmodelled => .unmodelled
+
+/-- the item used when a key is absent: the spec's default text (the string "None" means None) -/
+def defaultItem (d : String) : Item := if lowerS d == "none" then .scalar .none else .scalar (.str d)
+
+/-- `_validate_config` restricted to scalar validators: unknown keys rejected (unless `__allow_others__`), every spec key
 present in the result (default validated when absent, rejected when required and absent), provided values validated -/
-def validateSection (allowOthers : Bool) (extraKeys : Nat) (spec : List KeySpec) (src : List (String × Y)) :
-    Option (List (String × R)) :=
+def validateSection (allowOthers : Bool) (extraKeys : Nat) (spec : List KeySpec) (src : List (String × Item)) :
+    Option (List (String × RI)) :=
   if !allowOthers && extraKeys > 0 then Option.none
   else some (spec.map (fun ks =>
     match src.lookup ks.key with
-    | some v => (ks.key, validateItem ks.vd v)
+    | some v => (ks.key, validateConfigItem ks.it ks.vd ks.vvd ks.brace v)
     | Option.none =>
       match ks.default with
-      | some d => (ks.key, validateItem ks.vd (.str d))
+      | some d => (ks.key, validateConfigItem ks.it ks.vd ks.vvd ks.brace (defaultItem d))
       | Option.none => (ks.key, .reject)))
 
 /-! ## line protocol -/
@@ -451,13 +558,55 @@ def parseV (s : String) : Option V :=
   | "pow2" => some .pow2 | "bool_int" => some .boolInt
   | _ => Option.none
 
-def parseKeyTok (t : String) : Option (KeySpec × Option Y) :=
+def parseItem (t : String) : Option Item :=
+  if t.startsWith "l:" then
+    let body := (t.drop 2).toString
+    if body.isEmpty then some (.list []) else ((body.splitOn ",").mapM parseY).map Item.list
+  else if t.startsWith "d:" then
+    let body := (t.drop 2).toString
+    if body.isEmpty then some (.dict []) else
+      ((body.splitOn ",").mapM (fun (kv : String) => match kv.splitOn "=" with
+        | [a, b] => do pure ((← parseY a), (← parseY b))
+        | _ => Option.none)).map Item.dict
+  else (parseY t).map Item.scalar
+
+def showItem : Item → String
+  | .scalar y => showY y
+  | .list ys => "l:" ++ ",".intercalate (ys.map showY)
+  | .dict kvs => "d:" ++ ",".intercalate (kvs.map (fun p => showY p.1 ++ "=" ++ showY p.2))
+
+def showRI : RI → String
+  | .ok v => "ok " ++ showItem v | .reject => "reject" | .raise => "raise" | .unmodelled => "unmodelled"
+
+def parseIType (s : String) : Option IType :=
+  match s with
+  | "single" => some .single | "list" => some .list | "set" => some .set | "dict" => some .dict | _ => Option.none
+
+/-- split `a:b` dict validators at the top-level colon -/
+def splitDictValidator (s : String) : String × Option String :=
+  let rec go (cs : List Char) (depth : Nat) (acc : List Char) : List Char × Option (List Char) :=
+    match cs with
+    | [] => (acc.reverse, Option.none)
+    | c :: r =>
+      if c == '(' then go r (depth + 1) (c :: acc)
+      else if c == ')' then go r (depth - 1) (c :: acc)
+      else if c == ':' && depth == 0 then (acc.reverse, some r)
+      else go r depth (c :: acc)
+  let (a, b) := go s.toList 0 []
+  (String.ofList a, b.map String.ofList)
+
+/-- `key|itemtype|validator|defaulthex|item-or-minus` -/
+def parseKeyTok (t : String) : Option (KeySpec × Option Item) :=
   match t.splitOn "|" with
-  | [k, vd, dflt, v] => do
-    let V ← parseV vd
+  | [k, it, vd, dflt, v] => do
+    let I ← parseIType it
+    let (a, b) := splitDictValidator vd
+    let V1 ← parseV a
+    let V2 ← (match b with | some x => (parseV x).map some | Option.none => some Option.none)
     let d ← strOfHex dflt
-    let val ← (if v == "-" then some Option.none else (parseY v).map some)
-    pure ({ key := k, vd := V, default := if d.isEmpty then Option.none else some d }, val)
+    let val ← (if v == "-" then some Option.none else (parseItem v).map some)
+    let brace := !(a == "event_posted" || a == "event_handler")
+    pure ({ key := k, it := I, vd := V1, vvd := V2, brace := brace, default := if d.isEmpty then Option.none else some d }, val)
   | _ => Option.none
 
 def driverStep (u : Unit) (line : String) : Unit × String :=
@@ -465,6 +614,14 @@ def driverStep (u : Unit) (line : String) : Unit × String :=
   | ["item", vd, v] =>
     match parseV vd, parseY v with
     | some V, some y => (u, showR (validateItem V y))
+    | _, _ => (u, "bad-op")
+  | ["citem", it, vd, v] =>
+    match parseIType it, parseItem v with
+    | some I, some item =>
+      let (a, b) := splitDictValidator vd
+      match parseV a, (match b with | some x => (parseV x).map some | Option.none => some Option.none) with
+      | some V1, some V2 => (u, showRI (validateConfigItem I V1 V2 true item))
+      | _, _ => (u, "bad-op")
     | _, _ => (u, "bad-op")
   | ["ms", v] =>
     match parseY v with
@@ -480,7 +637,7 @@ def driverStep (u : Unit) (line : String) : Unit × String :=
       | some rs =>
         if rs.any (fun p => p.2 == .unmodelled) then (u, "unmodelled")
         else if rs.any (fun p => match p.2 with | .ok _ => false | _ => true) then (u, "reject")
-        else (u, "ok" ++ String.join (rs.map (fun p => " " ++ p.1 ++ "=" ++ (match p.2 with | .ok v => showY v | _ => "?"))))
+        else (u, "ok" ++ String.join (rs.map (fun p => " " ++ p.1 ++ "=" ++ (match p.2 with | .ok v => showItem v | _ => "?"))))
     | _, _ => (u, "bad-op")
   | _ => (u, "bad-op")
 
